@@ -21,12 +21,13 @@ type ImportSpec struct {
 
 // FileSpec is one file of the workload.
 type FileSpec struct {
-	ID      int          `json:"id"`
-	Path    string       `json:"path"` // canonical read path without version
-	Remote  bool         `json:"remote,omitempty"`
-	Kind    string       `json:"kind"` // sysl | swagger | openapi3 | pbjson | textpb | proto
-	Imports []ImportSpec `json:"imports,omitempty"`
-	Text    string       `json:"text"` // delivered content (after content faults)
+	ID       int          `json:"id"`
+	Path     string       `json:"path"` // canonical read path without version
+	Remote   bool         `json:"remote,omitempty"`
+	Kind     string       `json:"kind"` // sysl | swagger | openapi3 | pbjson | textpb | proto
+	Imports  []ImportSpec `json:"imports,omitempty"`
+	LongLine int          `json:"long_line,omitempty"` // a comment line of that many bytes before import number (LongLine-1)
+	Text     string       `json:"text"`                // delivered content (after content faults)
 }
 
 // Fault is one entry of the fault plan.
@@ -176,7 +177,10 @@ func Gen(seed uint64, faulty bool) *Workload {
 			name := fmt.Sprintf("f%d.sysl", i)
 			if i > 0 && try < 3 && r.Chance(0.3) {
 				// the same base name in different directories (or repo directories)
-				name = []string{"common.sysl", "model.sysl", "index.sysl"}[r.Intn(3)]
+				name = []string{"common.sysl", "model.sysl", "index.sysl", "my%20file.sysl"}[r.Intn(4)]
+				if remote[i] && strings.Contains(name, "%") {
+					name = "common.sysl" // '%' is not legal in a remote resource path
+				}
 			}
 			if remote[i] {
 				d := []string{"", "/dir", "/dir/sub"}[r.Intn(3)]
@@ -265,6 +269,15 @@ func Gen(seed uint64, faulty bool) *Workload {
 
 	for _, fs := range w.Files {
 		fs.Text = render(w, fs)
+	}
+	// a line of more than 64 KiB ahead of some import statement
+	if r.Chance(0.08) {
+		for _, f := range w.Files {
+			if f.Kind == "sysl" && len(f.Imports) > 0 && r.Chance(0.5) {
+				f.LongLine = 1 + r.Intn(len(f.Imports))
+				f.Text = render(w, f)
+			}
+		}
 	}
 	// the rarely used switch that turns the import-definition check off
 	if r.Chance(0.12) {
@@ -520,7 +533,11 @@ paths:
 		return fmt.Sprintf("apps: {\n key: \"Foreign%d\"\n value: {\n  name: {\n   part: \"Foreign%d\"\n  }\n }\n}\n", f.ID, f.ID)
 	}
 	var b strings.Builder
-	for _, im := range f.Imports {
+	for k, im := range f.Imports {
+		if f.LongLine == k+1 {
+			// a very long line ahead of an import statement (a generated banner, a minified comment)
+			b.WriteString("# " + strings.Repeat("long comment ", 5600) + "\n")
+		}
 		b.WriteString("import " + im.Spell)
 		if im.As != "" {
 			b.WriteString(" as " + im.As)
